@@ -56,8 +56,8 @@ def cache_key_injective(c):
     c.replay("code", code=REPLAY_KEY)
 
 
-def _mk_check_cache(kind):
-    @contract(MIXIN + "._check_cache", prop="C23", name=f"_check_cache[{kind}]")
+def _mk_check_cache(kind, sfx=""):
+    @contract(MIXIN + "._check_cache" + sfx, prop="C23", name=f"_check_cache{sfx}[{kind}]")
     def cc_(c):
         key = c.str("cache_key")
         globs = c.any("globals")
@@ -83,7 +83,7 @@ def _mk_check_cache(kind):
             return [(st, fresh)]
         c.summary("liquid.utils.lru_cache:LRUCache.__getitem__", getitem)
         c.summary("liquid.utils.lru_cache:LRUCache.__setitem__", setitem)
-        c.summary(TEMPLATE + ".is_up_to_date", uptodate)
+        c.summary(TEMPLATE + ".is_up_to_date" + sfx, uptodate)
         lf = VFunc(ast.parse("def load_func(): pass").body[0], load.get_module("liquid.builtin.loaders.mixins"), None, "load_func", None)
         c.summary("liquid.builtin.loaders.mixins:load_func", load_func)
         c.call(c.any("env"), key, globs, lf, self_val=self)
@@ -116,8 +116,9 @@ def _mk_check_cache(kind):
         c.replay("code", code=REPLAY_CACHE)
 
 
-_mk_check_cache("miss")
-_mk_check_cache("hit")
+for _sfx in ("", "_async"):
+    _mk_check_cache("miss", _sfx)
+    _mk_check_cache("hit", _sfx)
 
 
 @structural("C23", "wiring")
